@@ -662,9 +662,14 @@ class Monitor:
                 for f in inst(sch):
                     if not holds(S_(f)):
                         return self.fail(qualname, f"constraint {sch.name} on {l.fieldname} violated", conc, str(z3.simplify(S_(f)))[:300])
-        for fct in o.facts:
-            if not holds(S_(fct)):
-                return self.fail(qualname, "result fact violated", conc)
+        if not spec.ghosts:        # facts over existential ghosts cannot be evaluated concretely
+            for fct in o.facts:
+                if not holds(S_(fct)):
+                    return self.fail(qualname, "result fact violated", conc)
+            for sch in o.fact_schemas:
+                for f in inst(sch):
+                    if not holds(S_(f)):
+                        return self.fail(qualname, f"result fact {sch.name} violated", conc)
         return True
 
     def fail(self, qualname, what, conc, detail=""):
